@@ -50,7 +50,7 @@ PLANNING_PANICS = ("with overflow", "invalid digit", "divisor of zero", "not fou
                    "not a plan", "called `Option::unwrap()`", "called `Result::unwrap()`", "index out of bounds")
 
 WIDE = dict(null_lit=False, inl_null=False, mod="const", touch_all=False, const_pred=True, order_const=True,
-            agg_const=True, distinct_order=True, not_in_sub=True, sub_top_only=False, sel_needs_col=False)
+            agg_const=True, distinct_order=True, not_in_sub=True, sub_top_only=False, sel_needs_col=False, udf=True)
 
 
 def signature(q, failure, where="?"):
